@@ -353,6 +353,7 @@ var solvers = []solverSpec{
 }
 
 var slowLog = os.Getenv("GOVC_SLOW") != ""
+var slowN int
 
 var (
 	solverSem     = make(chan struct{}, 24)
@@ -403,7 +404,7 @@ func solveRetry(query string, timeoutMs int) *SolveResult {
 	ctx, cancel := context.WithCancel(context.Background())
 	defer cancel()
 	seeds := []int{solverSeed, solverSeed + 1, solverSeed + 2}
-	ch := make(chan r, len(solvers)*len(seeds))
+	ch := make(chan r, len(solvers)*len(seeds)+4)
 	for _, sp := range solvers {
 		for _, sd := range seeds {
 			sp, sd := sp, sd
@@ -413,7 +414,28 @@ func solveRetry(query string, timeoutMs int) *SolveResult {
 			}()
 		}
 	}
-	for i := 0; i < len(solvers)*len(seeds); i++ {
+	total := len(solvers) * len(seeds)
+	if lite, ok := liteQuery(query); ok {
+		lfile := file + "-lite.smt2"
+		if err := os.WriteFile(lfile, []byte(lite+"(check-sat)\n"), 0o644); err != nil {
+			panic(err)
+		}
+		defer os.Remove(lfile)
+		for _, sp := range solvers[:2] {
+			for _, sd := range seeds[:2] {
+				sp, sd := sp, sd
+				total++
+				go func() {
+					st, out, _ := runOneSeed(ctx, sp, lfile, timeoutMs, sd)
+					if st != "unsat" {
+						st = "unknown"
+					}
+					ch <- r{fmt.Sprintf("%s (retry, seed %d, hypotheses without hint instances)", sp.name, sd), st, out}
+				}()
+			}
+		}
+	}
+	for i := 0; i < total; i++ {
 		x := <-ch
 		if res.Status != "unknown" {
 			continue
@@ -495,6 +517,19 @@ func runOneSeed(ctx context.Context, sp solverSpec, file string, timeoutMs int, 
 		keepFile(file)
 	}
 	return
+}
+
+const extraBegin = "; hint-instances-begin\n"
+const extraEnd = "; hint-instances-end\n"
+
+// liteQuery removes the block of hint instances from a query.
+func liteQuery(q string) (string, bool) {
+	i := strings.Index(q, extraBegin)
+	j := strings.Index(q, extraEnd)
+	if i < 0 || j < i || j-i < len(extraBegin)+2000 {
+		return "", false
+	}
+	return q[:i] + q[j+len(extraEnd):], true
 }
 
 var keepMu sync.Mutex
@@ -585,7 +620,7 @@ func solve(query string, timeoutMs int, wantModel bool) *SolveResult {
 			name, st, out string
 		}
 		ctx, cancel := context.WithCancel(context.Background())
-		ch := make(chan r, 3)
+		ch := make(chan r, 4)
 		for _, sp := range solvers {
 			sp := sp
 			go func() {
@@ -593,7 +628,25 @@ func solve(query string, timeoutMs int, wantModel bool) *SolveResult {
 				ch <- r{sp.name, st, out}
 			}()
 		}
-		for i := 0; i < 3; i++ {
+		contenders := 3
+		if lite, ok := liteQuery(query); ok {
+			// the same query without the ground instances the generator adds as hints: a subset
+			// of the hypotheses, so "unsat" is a proof of the full query; any other answer is ignored.
+			contenders++
+			lfile := filepath.Join(scratch(), key+"-lite.smt2")
+			if err := os.WriteFile(lfile, []byte(lite+"(check-sat)\n"), 0o644); err != nil {
+				panic(err)
+			}
+			defer os.Remove(lfile)
+			go func() {
+				st, out, _ := runOne(ctx, solvers[0], lfile, timeoutMs)
+				if st != "unsat" {
+					st = "unknown"
+				}
+				ch <- r{"z3-new (hypotheses without hint instances)", st, out}
+			}()
+		}
+		for i := 0; i < contenders; i++ {
 			x := <-ch
 			if res.Status == "unknown" || (x.st == "unsat" || x.st == "sat") {
 				if _, have := res.Detail[x.name]; !have || x.st != "unknown" {
@@ -620,6 +673,10 @@ func solve(query string, timeoutMs int, wantModel bool) *SolveResult {
 			g = g[:220]
 		}
 		fmt.Fprintf(os.Stderr, "[slow] %.1fs %s %s tmo=%d %s\n", res.Secs, res.Status, res.Backend, timeoutMs, strings.TrimSpace(g))
+		if os.Getenv("GOVC_SLOW") == "dump" && res.Secs > 10 {
+			slowN++
+			os.WriteFile(fmt.Sprintf("/tmp/govc-slow-%d.smt2", slowN), []byte(query+"(check-sat)\n"), 0o644)
+		}
 	}
 	keepMu.Lock()
 	kept := keptFiles[file]
